@@ -19,7 +19,8 @@ pub struct C14Prop;
 pub static C14: C14Prop = C14Prop;
 
 const ROOT_TOKEN: &str = "/R";
-const DIRS: [&str; 6] = ["", "sub", "sub/deep", "lib", "a b", "d\u{e9}"];
+/// (`~`: a directory that is literally named like the shell's home shorthand)
+const DIRS: [&str; 8] = ["", "sub", "sub/deep", "lib", "a b", "d\u{e9}", "~", "~/inner"];
 const MALFORMED: [&str; 8] = [":\"", "x = \"abc", "!", "!  ", "!foo bar", "cmd \"a\\q\"", "\"cmd", "a\\b c"];
 const INCLUDE: &str = "!include_files";
 
